@@ -1,6 +1,7 @@
 import BurrowVerif.Model.Tmpl
 import BurrowVerif.Model.Json
 import BurrowVerif.Model.TmplFlow
+import BurrowVerif.Model.TmplHelpers
 import BurrowVerif.Spec.Tmpl
 import BurrowVerif.Generated.Templates
 import Driver.Util
@@ -168,6 +169,29 @@ def dataVal? (args : List String) : Option Val := do
   pure (.obj "Data" [("Cluster", .str cluster), ("Group", .str group), ("ID", .str id), ("Start", .time start),
     ("Extras", .map extras), ("Result", result)])
 
+/-! the partition helpers (`topicsbystatus`, `partitioncounts`) on the partition list of the case:
+    `hlp=<status:topic,topic;…>|<name:count,…>`, everything sorted, topics hex-encoded; `hlp=err` when
+    a listed partition is nil (the helpers dereference every element) -/
+
+def hpart? (s : String) : Option (Option HPart) :=
+  if s == "nil" then some none else
+  match s.splitOn ":" with
+  | [topic, _, _, _, status, _, _, _, _] => do
+    pure (some { topic := (← unhex? topic), status := (← status.toInt?) })
+  | _ => none
+
+def sortS (l : List String) : List String := l.mergeSort fun a b => !(decide (b < a))
+
+def helpersOut (args : List String) : String :=
+  match (kv args "parts").bind fun p => parseList? p ";" hpart? with
+  | none => "bad"
+  | some ps =>
+    if ps.any Option.isNone then "err" else
+    let hs := ps.filterMap id
+    let tbs := (topicsByStatus hs).map fun kv => kv.1 ++ ":" ++ ",".intercalate (sortS (kv.2.map hexOfString))
+    let pc := (partitionCounts hs).map fun kv => s!"{kv.1}:{kv.2}"
+    (if tbs.isEmpty then "-" else ";".intercalate (sortS tbs)) ++ "|" ++ ",".intercalate pc
+
 def table? (s : String) : Option (List (String × String)) :=
   parseList? s ";" fun e =>
     match e.splitOn ":" with
@@ -216,8 +240,8 @@ def step (args : List String) : String :=
           let viol := if shipped && safe && isJsonTemplate name && !jv then " ~specviol=json" else ""
           -- `exec` is a function of the data: renderings made at the same time are what they are alone
           let par := if kv rest "par" == some "1" then " par=same" else ""
-          s!"r=ok out={hexOfString out} json={if jv then "valid" else "invalid"} gen={gen}{par}{flowS}{viol}{envViol}"
-        | .err _ => s!"r=err gen={gen}" ++ (if shipped && inv then " ~specviol=render" else "")
+          s!"r=ok out={hexOfString out} json={if jv then "valid" else "invalid"} gen={gen}{par} hlp={helpersOut rest}{flowS}{viol}{envViol}"
+        | .err _ => s!"r=err gen={gen} hlp={helpersOut rest}" ++ (if shipped && inv then " ~specviol=render" else "")
         | .unsup w => s!"r=unsup gen={gen} ~why={hexOfString w}"
     | _, _, _, _, _, _ => "bad-op"
   | _ => "bad-op"
